@@ -275,6 +275,7 @@ func (c *Client) listener(ch chan *nats.Msg, stopped chan struct{}) {
 				// Handle no responders header, if available
 				if len(msg.Data) == 0 && msg.Header.Get("Status") == "503" {
 					c.Tracef("x=> (%s) No responders", inboxSubstr(msg.Subject))
+					verifPoint("nats.deliver")
 					rc.f("", nil, mq.ErrNoResponders)
 					continue
 				}
@@ -282,6 +283,7 @@ func (c *Client) listener(ch chan *nats.Msg, stopped chan struct{}) {
 			} else {
 				c.Tracef("=>> %s: %s", msg.Subject, msg.Data)
 			}
+			verifPoint("nats.deliver")
 			rc.f(msg.Subject, msg.Data, nil)
 		}
 	}
@@ -313,6 +315,7 @@ func (c *Client) parseMeta(msg *nats.Msg, rc *responseCont) {
 
 func (c *Client) onTimeout(v interface{}) {
 	sub := v.(*nats.Subscription)
+	verifPoint("nats.timeout")
 
 	c.mu.Lock()
 	rc, ok := c.mqReqs[sub]
@@ -328,6 +331,7 @@ func (c *Client) onTimeout(v interface{}) {
 	}
 	sub.Unsubscribe()
 
+	verifPoint("nats.timeoutDeliver")
 	c.Tracef("x=> (%s) Request timeout", inboxSubstr(sub.Subject))
 	rc.f("", nil, mq.ErrRequestTimeout)
 }
